@@ -1320,6 +1320,65 @@ def setitem_tensor(t, it, ctx, idx, v):
         new = VTensor(list(t.dims), bro.elem, "real" if "real" in (t.sort, src.sort) else src.sort)
         assign_inplace(t, new, ctx)
         return
+    # x[..., i, a:b, :] = v : integer positions, unit-step slices and full slices (one Ellipsis at most): the selected sub-block is overwritten by v
+    # (broadcast to the block), everything else is kept
+    is_sl = lambda x: isinstance(x, VSlice)  # noqa: E731
+    if every and all(x is ELLIPSIS or is_sl(x) or isinstance(x, VNum) for x in every) and any((isinstance(x, VNum) or (is_sl(x) and not full(x))) for x in every) \
+            and sum(1 for x in every if x is ELLIPSIS) <= 1 and t.view_of is None:
+        nd = len(t.dims)
+        explicit = [x for x in every if x is not ELLIPSIS]
+        if len(explicit) > nd:
+            raise PyRaise(VExc("IndexError", "too many indices for tensor"))
+        if any(x is ELLIPSIS for x in every):
+            e = next(q for q, x in enumerate(every) if x is ELLIPSIS)
+            per_dim = every[:e] + [VSlice(NONE, NONE, NONE)] * (nd - len(explicit)) + every[e + 1:]
+        else:
+            per_dim = every + [VSlice(NONE, NONE, NONE)] * (nd - len(every))
+        cur = t.frozen()
+        for q_, x in enumerate(per_dim):
+            if not full(x) and len(cur.dims[q_].atoms) != 1:
+                cur = flatten_dim(cur, q_)
+        offs = _dim_offsets(cur)
+        fixed = []   # (atom position, index term)
+        ranged = []  # (atom position, start, count)
+        sub_dims = []
+        sub_map = []  # per kept atom: (position in the destination index, offset to subtract)
+        for q_, x in enumerate(per_dim):
+            n_ = cur.dims[q_].size
+            if isinstance(x, VNum):
+                ix = z3.If(x.t < 0, x.t + n_, x.t)
+                fixed.append((offs[q_], z3.simplify(ix)))
+            elif full(x):
+                sub_dims.append(cur.dims[q_])
+                for a_ in range(len(cur.dims[q_].atoms)):
+                    sub_map.append((offs[q_] + a_, None))
+            else:
+                st, cnt, step = slice_params(ctx, x, n_)
+                if not ctx.entails(step == 1):
+                    raise Undecided("slice assignment with a step")
+                ranged.append((offs[q_], st, cnt))
+                sub_dims.append(Dim([z3.simplify(cnt)]))
+                sub_map.append((offs[q_], st))
+        src = as_tensor(v).frozen()
+        like = VTensor(sub_dims, lambda i_: z3.IntVal(0), "int")
+        bro = pointwise(ctx, [like, src], lambda a_, b_: b_)
+        if len(bro.dims) != len(sub_dims) or [len(d_.atoms) for d_ in bro.dims] != [len(d_.atoms) for d_ in sub_dims]:
+            raise Undecided("block assignment whose source does not broadcast to the block")
+        old_elem = cur.elem
+        real = "real" in (cur.sort, src.sort)
+
+        def elem(i_):
+            conds = [i_[pos] == ix for pos, ix in fixed] + [z3.And(i_[pos] >= st, i_[pos] < st + cnt) for pos, st, cnt in ranged]
+            cond = z3.And(*conds) if conds else z3.BoolVal(True)
+            sidx = [(i_[pos] if off is None else i_[pos] - off) for pos, off in sub_map]
+            n_, o_ = coerce_pair(bro.elem(sidx), old_elem(i_))
+            return z3.If(cond, n_, o_)
+
+        t.dims = list(cur.dims)
+        t.elem = elem
+        t.sort = "real" if real else cur.sort
+        t.meta["version"] = t.meta.get("version", 0) + 1
+        return
     # x[..., mask] = v  /  x[:, mask] = v : a boolean mask over the trailing dims, everything before it a full slice / Ellipsis
     items = list(idx.items) if isinstance(idx, VTuple) else None
     if items and isinstance(items[-1], VTensor) and items[-1].sort == "bool" and all(
@@ -2218,3 +2277,101 @@ def sym_tensor(name, extents, sort="real", is_linop=False, symmetric=False):
                 label=name, linop_class="DenseLinearOperator" if is_linop else None)
     t.meta["uf"] = f
     return t
+
+
+def resolve_ites(ctx, t, budget=200):
+    """t with (1) the slice-start / slice-count symbols replaced by their defining terms (equalities of the path condition), (2) every If whose condition the path
+    condition decides replaced by the chosen branch, and (3) every integer div / mod subterm that the path condition pins to one constant replaced by it
+    (index arithmetic of tensors assembled by block assignments, views and gathers, read at an index the contract fixes).  Sound: only entailed facts are used."""
+    subs = []
+    for f in ctx.pc:
+        conj = f.children() if z3.is_and(f) else [f]
+        for g in conj:
+            if z3.is_eq(g):
+                l, r = g.children()
+                for a_, b_ in ((l, r), (r, l)):
+                    if z3.is_const(a_) and a_.decl().kind() == z3.Z3_OP_UNINTERPRETED and a_.decl().name().startswith(("sl_start", "sl_count")) and not _contains(b_, a_):
+                        subs.append((a_, b_))
+                        break
+    for _ in range(3):
+        if subs:
+            t = z3.substitute(t, *subs)
+    t = z3.simplify(t)
+    cache = {}
+    left = [budget]
+    # index conditions depend on the integer facts of the path condition only: a solver over that subset (weaker premises: still sound) answers much faster
+    # than the full one, which also carries the ground axioms of exp / log / reciprocals
+    _real_free = {}
+
+    def real_free(e):
+        k = e.get_id()
+        if k not in _real_free:
+            _real_free[k] = (e.sort().kind() != z3.Z3_REAL_SORT) and all(real_free(x) for x in e.children())
+        return _real_free[k]
+
+    isolv = z3.Solver()
+    isolv.set("timeout", 3000)
+    for f in ctx.pc:
+        for g in (f.children() if z3.is_and(f) else [f]):
+            if real_free(g):
+                isolv.add(g)
+
+    class _I:
+        solver = isolv
+
+        @staticmethod
+        def entails(f):
+            isolv.push()
+            isolv.add(z3.Not(f))
+            r = isolv.check()
+            isolv.pop()
+            return r == z3.unsat
+
+    ctx = _I
+
+    def pinned(e):
+        """an integer constant c with pc |= e == c, if one model value turns out to be forced"""
+        if left[0] <= 0:
+            return None
+        left[0] -= 1
+        if ctx.solver.check() != z3.sat:
+            return None
+        v = ctx.solver.model().eval(e, model_completion=True)
+        if z3.is_int_value(v) and ctx.entails(e == v):
+            return v
+        return None
+
+    def go(e):
+        k = e.get_id()
+        if k in cache:
+            return cache[k]
+        if z3.is_app_of(e, z3.Z3_OP_ITE):
+            c_, a_, b_ = e.children()
+            c2 = go(c_)
+            r = None
+            if left[0] > 0:
+                left[0] -= 1
+                if ctx.entails(c2):
+                    r = go(a_)
+                elif ctx.entails(z3.Not(c2)):
+                    r = go(b_)
+            if r is None:
+                r = z3.If(c2, go(a_), go(b_))
+        elif z3.is_app(e) and e.num_args() > 0:
+            ch = [go(x) for x in e.children()]
+            r = e.decl()(*ch) if any(not x.eq(y) for x, y in zip(ch, e.children())) else e
+            if z3.is_app_of(r, z3.Z3_OP_IDIV) or z3.is_app_of(r, z3.Z3_OP_MOD):
+                a_, b_ = r.children()
+                if left[0] > 0 and ctx.entails(z3.And(a_ >= 0, a_ < b_)):
+                    left[0] -= 1
+                    r = z3.IntVal(0) if z3.is_app_of(r, z3.Z3_OP_IDIV) else a_  # 0 <= a < b: a div b = 0, a mod b = a
+                else:
+                    v = pinned(r)
+                    if v is not None:
+                        r = v
+        else:
+            r = e
+        cache[k] = r
+        return r
+
+    return z3.simplify(go(t))
